@@ -393,6 +393,8 @@ def gen_cfg(rng):
 
 def part(rng, bal):
     c = rng.random()
+    if c < 0.04:
+        return bal + rng.choice([1, 1, 10 ** 6])      # more than the account holds
     if c < 0.35:
         return bal
     if c < 0.5:
@@ -462,7 +464,7 @@ def gen_op(rng, w, stats):
             dest = c if rng.random() < 0.95 else rng.choice(users)
             return ["Extend", c, e, part(rng, b), le, dest]
     elif roll < 0.48:     # merge
-        pool = live if rng.random() < 0.9 else mine
+        pool = live if rng.random() < (0.8 if dead else 0.95) else mine
         if pool:
             k = min(len(pool), rng.choice([1, 2, 2, 2, 3, 3]))
             ps = [[e, part(rng, b)] for e, b in rng.sample(pool, k)]
@@ -482,7 +484,7 @@ def gen_op(rng, w, stats):
             k = min(len(pool), rng.choice([1, 1, 2, 3]))
             return ["Unlock", c, [[e, part(rng, b)] for e, b in rng.sample(pool, k)]]
     elif roll < 0.70:     # unlock early
-        pool = live if rng.random() < 0.93 else mine
+        pool = live if rng.random() < (0.85 if dead else 0.95) else mine
         if pool:
             e, b = rng.choice(pool)
             return ["UnlockEarly", c, e, part(rng, b)]
@@ -531,7 +533,7 @@ def gen_op(rng, w, stats):
             if sub < 0.12:
                 return ["WTransfer", u, rng.choice([x for x in users if x != u]), e, part(rng, b)]
             return ["Unwrap", u, e, part(rng, b)]
-        pool = live if rng.random() < 0.93 else mine
+        pool = live if rng.random() < (0.85 if dead else 0.95) else mine
         if pool:
             e, b = rng.choice(pool)
             return ["Wrap", c, e, part(rng, b)]
